@@ -27,7 +27,7 @@ func runC10b(c *Ctx) {
 	L, P := c.L, c.P
 	L.Rule("R-C10-LAYOUT", "page word layout and the bit fields of the meta word agree between their readers and writers", 8)
 	L.Rule("R-C10-NODESET", "node.set / moveRight / maxKey: position, shift, count and stores", 3)
-	L.Rule("R-C10-EXACT", "DeleteBelow is exact: the max key compact retains for routing stops answering when its value is below the threshold (finding F7)", 1)
+	L.Rule("R-C10-EXACT", "DeleteBelow is exact: the max key compact retains for routing stops answering when its value is below the threshold (finding F7); every DeleteBelow scans; a leaf answers with node.compact's count; every Reset wipes", 4)
 	L.Rule("R-C10-DESCEND", "Tree.set and Tree.get descend through the same slot; miss, claim, link and re-file conditions", 5)
 
 	ret1 := func(fn *ssa.Function) (string, bool) {
@@ -336,6 +336,71 @@ func runC10b(c *Ctx) {
 			}
 		}
 		L.Check(len(problems) == 0, "R-C10-EXACT", "node.compact#maxkey", "the retained max key's value is overwritten with 0 exactly when it is below lo, after the compaction", strings.Join(problems, "; "), zero[0].Pos())
+	})
+
+	// ---- R-C10-EXACT: every DeleteBelow scans, every leaf reports what node.compact found, every Reset wipes
+	c.Group("R-C10-EXACT", "Tree.DeleteBelow#always", func() {
+		fn := P.Fn("z", "Tree", "DeleteBelow")
+		L.Analysed(fname(fn))
+		tb := newTB(fn)
+		var scan []ssa.Instruction
+		for _, ci := range callsTo(fn, "z.Tree.compact") {
+			a := termsOf(tb, ci.Common().Args)
+			if a[0].String() == "p[0]" && a[1].String() == "call[z.Tree.node](p[0],c[1])" && a[2].String() == "p[1]" {
+				scan = append(scan, ci)
+			}
+		}
+		if len(scan) == 0 {
+			L.Fail("R-C10-EXACT", "Tree.DeleteBelow#always", "DeleteBelow does not compact from the root with its threshold", fn.Pos())
+			return
+		}
+		bad, path := mustPass(entryPos(fn), isAnyInstr(scan), nil)
+		L.Check(bad == nil, "R-C10-EXACT", "Tree.DeleteBelow#always", "every call scans the whole tree: t.compact(root, ts) on every path", "a DeleteBelow can return without scanning (block path "+pathString(path)+"): values written below an earlier threshold (Set, IterateKV rewrite) survive a later DeleteBelow", instrPos(bad))
+	})
+	c.Group("R-C10-EXACT", "Tree.compact#leaf", func() {
+		// the leaf branch answers with what node.compact(ts) found (0 = only the routing key is left and it
+		// is stale): a leaf declared empty without looking is recycled together with its live keys
+		fn := P.Fn("z", "Tree", "compact")
+		L.Analysed(fname(fn))
+		tb := newTB(fn)
+		inner := edgesWhere(fn, tb, "call[z.node.isLeaf](p[1])", nil, false)
+		want := "call[z.node.compact](p[1],p[2])"
+		var problems []string
+		n := 0
+		for _, r := range returnsOf(fn) {
+			if b, _ := reach(entryPos(fn), isInstr(r), nil, cutSet(inner)); b == nil {
+				continue // inner-node return
+			}
+			n++
+			// leaf-side return (reachable without taking the not-a-leaf edge): must be node.compact's result
+			leafOnly, _ := reach(entryPos(fn), isInstr(r), nil, cutSet(edgesWhere(fn, tb, "call[z.node.isLeaf](p[1])", nil, true)))
+			if leafOnly != nil {
+				continue // also reachable on the inner side: it is the inner node's own return
+			}
+			if got := tb.T(returnValues(r)[0]).String(); got != want {
+				problems = append(problems, "a leaf answers "+got+" instead of the result of n.compact(ts)")
+			}
+		}
+		if n == 0 {
+			problems = append(problems, "no leaf-side return found")
+		}
+		L.Check(len(problems) == 0, "R-C10-EXACT", "Tree.compact#leaf", "a leaf's answer is node.compact(ts)'s count on every path", strings.Join(problems, "; "), fn.Pos())
+	})
+	c.Group("R-C10-EXACT", "Tree.Reset#always", func() {
+		fn := P.Fn("z", "Tree", "Reset")
+		L.Analysed(fname(fn))
+		var problems []string
+		for _, callee := range []string{"z.Memclr", "z.Buffer.Reset", "z.Tree.initRootNode"} {
+			cs := callsTo(fn, callee)
+			if len(cs) == 0 {
+				problems = append(problems, "Reset does not call "+callee)
+				continue
+			}
+			if bad, path := mustPass(entryPos(fn), isAnyInstr(cs), nil); bad != nil {
+				problems = append(problems, "a Reset can return without "+callee+" (block path "+pathString(path)+"): whatever made the tree look empty (a counter that misses an overwritten sentinel) leaves old pairs readable")
+			}
+		}
+		L.Check(len(problems) == 0, "R-C10-EXACT", "Tree.Reset#always", "every Reset wipes the pages, resets the buffer and re-creates the root, unconditionally", strings.Join(problems, "; "), fn.Pos())
 	})
 
 	// ---- R-C10-DESCEND
